@@ -80,10 +80,16 @@ def make_record(vc, rid, case):
         data = np.array([dec_float(k + woff, unit, 2) for k in ks])
         vrf = None if vr is None else tuple(None if a is None else dec_float(a + woff, unit, 2) for a in vr)
         shift = 4 * woff
+        wpass = w
+        if case.get("vrtype") and vrf is not None:
+            # limits handed over as narrow numpy scalars (value_range=(0, data.max()) of narrow-typed data, D92)
+            vrf = tuple(None if a is None else np.dtype(case["vrtype"]).type(a) for a in vrf)
+        if case.get("wtype"):
+            wpass = np.dtype(case["wtype"]).type(w)
         rec.update(ropen=case["ropen"], upw=2, exact=unit in DYADIC,
                    lo=(vr[0] if vr and vr[0] is not None else 0),
                    hi=(vr[1] if vr and vr[1] is not None else max(ks)), data=list(ks))
-        mk = lambda **kw: vc.WidthOfIntervalSlicer(w, reference=ref, right_open=case["ropen"],
+        mk = lambda **kw: vc.WidthOfIntervalSlicer(wpass, reference=ref, right_open=case["ropen"],
                                                    value_range=vrf, **kw)
         eps = 1e-9 * w
     elif kind == "number":
@@ -284,6 +290,22 @@ def narrow_int_cases(ctx):
     for lastfull in (True, False):
         yield dict(kind="points", data=[40000, 49984, 60000, 33024, 45056], unit="1", n=2, lastfull=lastfull, reuse=False,
                    ref="median", minpts=1, minint=1, dtype="float16")
+    # narrow-typed LIMITS and WIDTH (D92): data_max + width must not be formed in the type of value_range / width
+    for ropen in (True, False):
+        for ref in refs[:3]:
+            # values 10*k, width 20: uint8 limit 250 + 20 wraps to 14, int8 limit 120 + 20 to -116
+            yield dict(kind="width", data=[1, 3, 5, 19, 21, 23, 20, 24, 25, 7], unit="20", ropen=ropen, vrange=(0, 25), offset=0,
+                       reuse=False, ref=ref, minpts=1, minint=1, dtype="uint8", vrtype="uint8")
+            yield dict(kind="width", data=[1, 3, 5, 9, 11, 12, 2, 7], unit="20", ropen=ropen, vrange=(0, 12), offset=0,
+                       reuse=False, ref=ref, minpts=1, minint=1, dtype="int8", vrtype="int8")
+            yield dict(kind="width", data=[1, 3, 5, 9, 11, 12, 2, 7], unit="20", ropen=ropen, vrange=(None, 12), offset=0,
+                       reuse=False, ref=ref, minpts=1, minint=1, vrtype="int8")
+            # values 5*k, width np.int8(10) with Python limits (0, 125): 125 + int8(10) wraps
+            yield dict(kind="width", data=[1, 4, 9, 14, 20, 25, 22, 3], unit="10", ropen=ropen, vrange=(0, 25), offset=0,
+                       reuse=False, ref=ref, minpts=1, minint=1, wtype="int8")
+            # float16 limit 1500 with width 0.5: 1500 + 0.5 rounds back to 1500 in half precision
+            yield dict(kind="width", data=[5998, 6000, 5990, 5000, 5996, 5999], unit="0.5", ropen=ropen, vrange=(5980, 6000), offset=0,
+                       reuse=False, ref=ref, minpts=1, minint=1, vrtype="float16")
 
 
 def random_cases(ctx):
